@@ -314,6 +314,59 @@ def race_search():
     return None
 
 
+NEIGHBOUR_PROBE = r"""
+import sys, json
+sys.path.insert(0, sys.argv[1])
+only = json.loads(sys.argv[2]); msgs = [bytes(m) for m in json.loads(sys.argv[3])]
+import robotpy_ext.misc.crc7 as mod
+def snap():
+    out = []
+    for m in msgs:
+        try:
+            out.append(['ok', mod.crc7(m)])
+        except BaseException as e:
+            out.append(['exc', type(e).__name__])
+    return out
+res = {'before': snap(), 'after': []}
+names = [n for n in sorted(vars(mod)) if not n.startswith('_') and n != 'crc7' and callable(getattr(mod, n))
+         and getattr(getattr(mod, n), '__module__', None) == mod.__name__]
+for n in names:
+    if only is not None and n != only:
+        continue
+    for arg in (b'\x01\x02\x80', [1, 2, 128], None):
+        try:
+            getattr(mod, n)(*(() if arg is None else (arg,)))
+        except BaseException:
+            pass
+        res['after'].append([n, repr(arg), snap()])
+print(json.dumps(res))
+"""
+
+
+def neighbour_probe(only=None):
+    """fresh process: crc7 on a few messages, then every other public callable the module defines (called with a short
+    message / without arguments), crc7 on the same messages after each: the checksum of a message does not depend on what
+    else the module was used for"""
+    import subprocess
+    from .common import REPO
+    msgs = [[1], [0xFF, 0x00, 0xA7, 0x3C], [0x12, 0x80, 0x7F], []]
+    try:
+        p = subprocess.run([sys.executable, "-c", NEIGHBOUR_PROBE, REPO, json.dumps(only), json.dumps(msgs)],
+                           stdout=subprocess.PIPE, stderr=subprocess.DEVNULL, text=True, timeout=60)
+        res = json.loads(p.stdout.strip().splitlines()[-1])
+    except Exception:
+        return None
+    want = [["ok", ref_crc(m)] for m in msgs]
+    if res["before"] != want:
+        return None          # wrong from the start: the plain input search reports that
+    for n, arg, got in res["after"]:
+        for m, g, w in zip(msgs, got, want):
+            if g != w:
+                return {"kind": "neighbour", "what": "after a call of %s(%s) of the same module crc7(%r) gives %r, the bit-serial CRC-7 is %d "
+                        "(it was right before that call)" % (n, arg, m, g, w[1]), "fingerprint": "crc7-depends-on-other-calls", "function": n}
+    return None
+
+
 def translate_loop(repo):
     """the byte loop of crc7(), read from the source (fail-closed):
          csum = 0 ; for d in data: csum = _crc7_table[d ^ csum] ; return csum
@@ -498,6 +551,10 @@ Print Assumptions impl_burst7.
             v = race_search()
             if v:
                 found = [v]
+        if not found:
+            v = neighbour_probe()
+            if v:
+                found = [v]
         if found:
             # shrink: shortest failing prefix/suffix
             v = found[0]
@@ -555,6 +612,14 @@ def replay(ctx, obj):
             print("violates C20:", vd)
             print("VIOLATION property=C20 replay=(replayed)")
             return 1
+        return 0
+    if obj.get("kind") == "neighbour":
+        v = neighbour_probe(obj.get("function"))
+        if v:
+            print("violates C20:", v["what"])
+            print("VIOLATION property=C20 replay=(replayed)")
+            return 1
+        print("crc7 gives the bit-serial CRC-7 before and after calls of the module's other functions")
         return 0
     if obj.get("kind") == "calls":
         vd = run_call_history(mod, obj["history"])
